@@ -1,15 +1,17 @@
 (* C10 - connection state and the on_connect/on_disconnect contract, over the Conn model
    (Link/Conn.v: connect/reconnect/disconnect/publish/subscribe/loop_read/loop_write/loop_misc with
    per-send outcomes, broker packets, transport failures, keepalive inputs, and API calls made from
-   inside every user callback).  The checkers are in Link/ConnCheck.v, the exclusions of the partial
-   statements in Link/ConnStatements.v; each exclusion is the signature of a finding
-   (corpus/C10/REPORT.md) and is shown to be needed by a witness below. *)
+   inside every user callback).  The checkers are in Link/ConnCheck.v.  c10_ops_ok (Link/ConnStatements.v)
+   is the conjunction of two exclusions, each the signature of an open finding and shown to be needed below:
+   D (F-C10d) in direct-write mode on_socket_open makes no API call, in external-loop mode it does not call
+   reconnect(); R (F-C10i) on_socket_close/on_socket_unregister_write call only publish/subscribe,
+   on_socket_register_write does not call reconnect(). *)
 From PahoV Require Import Base.Prelude Link.Conn Link.ConnCheck Link.ConnInv Link.ConnStatements
   Link.C10Inv Link.C10Proofs Link.ConnRefuted Link.ConnFuel.
 
 (* 1. is_connected() -> a socket is held, on it an accepting CONNACK was processed, no end since:
-   at the end of every operation and at the entry of every user callback except the two that run
-   inside _sock_close *)
+   at the end of every operation and at the entry of every user callback, except on_socket_close /
+   on_socket_unregister_write while connect()/reconnect() replaces a connection (F-C10h) *)
 Theorem C10_connected_sound_partial : forall c ops,
   cfg_ok c = true -> c10_ops_ok c ops = true -> c10_connected_x_ok (optrace c ops) = true.
 Proof. exact c10_connected_proved. Qed.
@@ -47,15 +49,17 @@ Theorem C10_model_complete : forall c ops,
 Proof. exact conn_model_complete. Qed.
 Print Assumptions C10_model_complete.
 
-(* each exclusion is needed: dropping it alone admits a run of the model that violates a clause *)
+(* each exclusion is needed: dropping it alone admits a run of the model that violates a clause; and the
+   witnesses of the defects repaired in /repo (F-C10e, f, g, j) now satisfy every clause *)
 Example C10_exclusions_needed :
-  (c10_ops_sel true true true true true false direct w_E = true /\ c10_connected_x_ok (optrace direct w_E) = false) /\
-  (c10_ops_sel true true true true false true direct w_F = true /\ c10_one_disconnect_ok (optrace direct w_F) = false) /\
-  (c10_ops_sel true false true true true true direct w_G = true /\ c10_one_disconnect_ok (optrace direct w_G) = false) /\
-  (c10_ops_sel false true true true true true direct_cb w_D = true /\ c10_wire_ok (optrace direct_cb w_D) = false) /\
-  (c10_ops_sel true true false true true true extloop w_R = true /\ c10_one_disconnect_ok (optrace extloop w_R) = false) /\
-  (c10_ops_sel true true true false true true direct w_C = true /\ c10_one_disconnect_ok (optrace direct w_C) = false).
+  (c10_ops_sel false true direct_cb w_D = true /\ c10_wire_ok (optrace direct_cb w_D) = false) /\
+  (c10_ops_sel true false extloop w_R = true /\ c10_one_disconnect_ok (optrace extloop w_R) = false) /\
+  (c10_ops_sel true false direct_cb w_R2 = true /\ c10_one_disconnect_ok (optrace direct_cb w_R2) = false).
 Proof. vm_compute. repeat split; reflexivity. Qed.
+Example C10_repaired_defects_hold :
+  all_c10 direct w_E = true /\ all_c10 direct w_E2 = true /\ all_c10 direct w_F = true /\
+  all_c10 direct w_G = true /\ all_c10 direct w_C = true.
+Proof. exact C10_repaired_witnesses. Qed.
 
 (* non-vacuity: a history with a refused connection, a server DISCONNECT, a keepalive expiry, a completed
    disconnect(), nested publish()/reconnect() in callbacks satisfies the hypotheses, produces the events the
